@@ -352,6 +352,30 @@ def c07_4(ctx):
             # gap check idiom: s[pos:m.start()] tested non-empty -> abort; pos = m.end(); trailing s[pos:] tested -> abort
             loops = [l for l in walk_no_nested(lex.node) if isinstance(l, ast.For) and any(x is c for x in ast.walk(l.iter))]
             if not loops:
+                # whatever the bookkeeping: if the text in front of the first match is to be examined, some slice of the source must
+                # be able to start at position 0 (a literal 0, an open lower bound, or a position variable initialised to 0)
+                src_ = unparse(c.args[1]) if len(c.args) > 1 else None
+                lows = [x.slice.lower for x in ast.walk(lex.node) if isinstance(x, ast.Subscript) and unparse(x.value) == src_ and isinstance(x.slice, ast.Slice)]
+
+                def may_be_zero(e):
+                    if e is None or (isinstance(e, ast.Constant) and e.value == 0):
+                        return True
+                    if isinstance(e, ast.Name):
+                        inits = [n.value for n in ast.walk(lex.node) if isinstance(n, ast.Assign) and unparse(n.targets[0]) == e.id]
+                        if any(isinstance(v, ast.Constant) and v.value == 0 for v in inits):
+                            return True
+                        # a loop variable: what it ranges over must be able to yield 0
+                        for l in ast.walk(lex.node):
+                            if isinstance(l, (ast.For, ast.comprehension)):
+                                names = [t.id for t in ast.walk(l.target) if isinstance(t, ast.Name)]
+                                if e.id in names and ('0' in [unparse(k) for k in ast.walk(l.iter) if isinstance(k, ast.Constant)]):
+                                    return True
+                    return False
+                if skipped and lows and not any(may_be_zero(lo) for lo in lows):
+                    ctx.refute('lexer:total', lex.site(c), 'text that is not whitespace is rejected wherever it stands: before the first token, between tokens, after the last',
+                               f'no examined slice of the text can begin at position 0 (lower bounds: {sorted({unparse(lo) for lo in lows if lo is not None})}): '
+                               f'characters in front of the first token ({skipped!r}) are dropped', witness={'expression': '~5', 'evaluates_as': '5'})
+                    continue
                 ctx.err('lexer:total', lex.site(c), 'finditer consumed by a for loop', 'unrecognised use')
                 continue
             lp = loops[0]
@@ -563,7 +587,12 @@ def c07_5(ctx):
         ctx.check(ok and got_base == base and sl_ok and lx == digits[base], key, pf.site(r),
                   f'{kind} {lit!r}: digits {"".join(sorted(digits[base]))[:16]} converted in base {base} after removing exactly the marker',
                   f'{unparse(v)}; pattern digit class {"".join(sorted(lx))}')
-    # hex suffix must be tested before the binary prefix 'b' would be... (e.g. 'b1H'): order of dispatch as today is part of the table
+    # a literal may begin like one notation and end like another (`beefH`: hex digits with the H suffix, beginning with the binary
+    # marker b): the notation whose digit class covers the other's marker must be tried first - H before b
+    if ('suffix', 'H') in order and ('prefix', 'b') in order:
+        ctx.check(order.index(('suffix', 'H')) < order.index(('prefix', 'b')), 'literal:suffix-H-before-prefix-b', site,
+                  'the H suffix is tested before the b prefix (b is a hex digit: `beefH`, `b8H` are hexadecimal)',
+                  f'order of the tests: {order}: `beefH` is handed to the binary conversion')
     ch = parser.get(('prefix', "'"))
     ok = ch is not None and ('char', "'") in lexer
     if ok:
